@@ -300,9 +300,20 @@ for (nm, call, stub, tiers) in BT_SHAPES:
     M_BTNODE.harnesses.append(H(nm, "U12", kind="bounded" if stub else "proof", tiers=tiers, shape=call,
                                 bound="parent sizes {1,4,8}, sibling sizes {4,5,8}; child I/O (fetch_child / write_child / write_plan_remove_node) by contract" if stub else None))
 
+CODEC_LENS = [0, 1, 2, 16, 254, 255, 256, 300]
+M_BTMOD = KModule("btree_mod", "src/btree/mod.rs", "verif_btree_mod", "btree_mod.rs",
+                  lambda: "\n".join("#[kani::proof]\n#[kani::unwind(%d)]\n#[kani::stub(std::fmt::format, crate::verif_stubs::fmt_format)]\nfn u12_codec_sep_len%d() { u12_codec_separator::<%d>(); }" % (L + 20, L, L) for L in CODEC_LENS),
+                  deps=(M_LOG, M_TABLE))
+for L in CODEC_LENS:
+    M_BTMOD.harnesses.append(H("u12_codec_sep_len%d" % L, "U12", kind="bounded", tiers=("quick", "thorough") if L in (0, 2, 254, 255) else ("thorough",),
+                               shape="write_separator/read_separator, key length %d" % L, bound="key lengths {0,1,2,16,254,255,256,300} (both sides of the 255 length escape)"))
+M_BTMOD.harnesses.append(H("u12_codec_header_and_null_child", "U12"))
+M_BTMOD.harnesses.append(H("u19_tree_column_maintenance_reaches_every_table", "U19", kind="bounded", bound="a btree column with 3 value tables"))
+M_COLUMN.harnesses.append(H("u19_hash_column_maintenance_reaches_every_table", "U19", kind="bounded", bound="a hash column with 1 value table"))
+
 # units whose harnesses call the real code without recorder / contract stubs: Kani's counterexample replays natively
 NATIVE_REPLAY_UNITS = {"U1", "U2", "U4", "U5", "U7", "U11"}
-KMODULES = {"index": M_INDEX, "table": M_TABLE, "log": M_LOG, "column": M_COLUMN, "ref_count": M_REFCOUNT, "btree_node": M_BTNODE}
+KMODULES = {"index": M_INDEX, "table": M_TABLE, "log": M_LOG, "column": M_COLUMN, "ref_count": M_REFCOUNT, "btree_node": M_BTNODE, "btree_mod": M_BTMOD}
 
 
 def kmodule_of_unit(unit):
@@ -365,7 +376,7 @@ PROPS["C06"] = {
     "does_not_cover": ["real part size 4096 / MiB values", "lz4 / snappy themselves", "write_existing_value_plan tier-move path", "reads through the mmap'd file (only the log view is modelled)"],
 }
 PROPS["C14"] = {
-    "kani_units": ["U14", "U3", "U1", "U15"],
+    "kani_units": ["U14", "U3", "U1", "U15", "U19"],
     "verus_units": [],
     "level": "other",
     "technique": "Kani/CBMC contracts on the real free-list operations and index page update (bounded tables / complete page proofs)",
@@ -457,6 +468,8 @@ UNIT_META = {
     "U16": {"functions": ["column::HashColumn::iter_index_internal"],
             "assumes": ["IndexTable::entries returns the chunk's 64 entries (U1.transmute_is_le_word); ValueTable::get_with_meta returns the stored value/count/key tail (U6.R)"]},
     "U17": {"functions": ["column::HashColumn::iter_values"], "assumes": ["ValueTable::iter_while replaced by its contract (calls the callback for the table's live entries)"]},
+    "U19": {"functions": ["column::Column::{refresh_metadata,complete_plan}", "column::HashColumn::{refresh_metadata,complete_plan}", "btree::BTreeTable::{refresh_metadata,complete_plan}"],
+            "assumes": ["ValueTable::{refresh_metadata,complete_plan} replaced by counters (their own contracts: U14.complete_plan.*)"]},
     "U11": {"functions": ["column::{unpack_node_data,unpack_node_children,packed_node_size,packed_child_count}"], "assumes": []},
     "U14": {"functions": ["table::ValueTable::{clear_slot,next_free,read_next_free,complete_plan,write_remove_plan,clear_chain}"], "assumes": ["LogWriter ghost view"]},
     "index_search": {"functions": ["index::Entry::*", "index::Address::*", "index::IndexTable::{chunk_index,find_entry_base}"], "assumes": ["read_entry contract (external_body; proved by Kani U1.read_entry_is_le_word)"]},
